@@ -43,6 +43,8 @@ THEOREMS = [
     dict(name="Snow.C20.qE_eq", clause="q_e = -N_w dHe iff configuration = VISF and t_start*3600 < t < (t_start+t_dur)*3600, else 0", strength="full"),
     dict(name="Snow.C20.no_evap_outside_window", clause="no evaporative term outside the vacuum window or outside VISF; the top ghost value is then the top value", strength="full"),
     dict(name="Snow.C20.visf_step_eq_shelf_outside_window", clause="outside the window the VISF cooling step of the top node is the shelf step", strength="full"),
+    dict(name="Snow.C20.visf_eq_shelf_before_window", clause="with the loop body an arbitrary function of q_e, a VISF stage and the shelf stage coincide up to the first step inside the window", strength="full"),
+    dict(name="Snow.C20.visf_eq_shelf_empty_window", clause="an empty window: the whole VISF stage is the shelf stage", strength="full"),
     dict(name="Snow.C20.evap_cools_iff", clause="inside the window q_e <= 0 iff p_vap >= p_vac (T_l = T_v > 0)", strength="full"),
     dict(name="Snow.C20.nonvacuous", clause="hypotheses are satisfiable (default VISF parameters)", strength="nonvacuity"),
 ]
@@ -58,9 +60,10 @@ ASSUMPTIONS = [
     "triple_point_coincide and p_ice_le_p_liq_below are numeric facts about exp/log at specific reals: NOT proved, "
     "evaluated at Float on a 0.01 K grid on every run (monitored test clause)",
     "liquid curve strictly increasing on [123, 235) K: NOT proved, monitored on the same grid",
-    "run-level clause 'outside the window a VISF run is identical to the shelf run' is proved for one step of the "
-    "top node (the only place the configuration enters the 1D loop) and CHECKED on real paired 1D runs; the induction "
-    "over the whole 1D/2D loop belongs to the Snowing1D/2D models of another work package",
+    "run-level clause 'outside the window a VISF run is identical to the shelf run' is proved by induction for a loop "
+    "whose body is an ARBITRARY function of (q_e, step index, state): that the configuration enters the 1D loop body "
+    "only through q_e is the modelling assumption, checked on real paired 1D runs (bitwise prefix / whole-run "
+    "identity); the 2D loops have the same window code but are not run here (2D model: another work package)",
     "real runs use a taller vial (height 0.03-0.04 m) and fast programs so that every step is recorded",
 ]
 RULE = ("(a) batches of random (T, p_vac, p_vap, kappa, m, k_B, T_l, T_v) incl. T_l = T_v, p_vap = p_vac, kappa = 1; "
@@ -80,10 +83,10 @@ LEVEL_TEXT = (
     "positive iff p_vap > p_vac, strictly increasing in p_vap, closed form and strict monotonicity in kappa on (0,1]; "
     "q_e is -N_w dHe exactly for VISF strictly inside the window and 0 otherwise; outside the window the VISF step of "
     "the top node equals the shelf step; inside it q_e <= 0 iff p_vap >= p_vac. Partial: liquid curve strictly "
-    "increasing on [235,332] K only. NOT proved, only evaluated on every run (test): coincidence of the two curves at "
+    "increasing on [235,332] K only; the run-level identity of VISF and shelf before the window is proved for a loop "
+    "body abstracted to an arbitrary function of q_e and state (that abstraction is checked on real runs). NOT proved, only evaluated on every run (test): coincidence of the two curves at "
     "the triple point (rel. 1e-6), p_ice <= p_liq on the 0.01 K grid below 273.15 K, liquid curve increasing on "
-    "[123,235) K; whole-run identity of VISF and shelf outside the window is checked on real runs, its induction over "
-    "the full loop is not part of this check.")
+    "[123,235) K.")
 
 
 def regenerate():
